@@ -16,6 +16,12 @@ use serde_json::{json, Value};
 
 pub const VERIF_DIR: &str = "/verif";
 
+/// where evidence and replay files go; /verif unless VP_OUT_DIR is set (used only by the
+/// sensitivity tooling, which runs seeded changes in a scratch mirror)
+pub fn out_dir() -> String {
+    std::env::var("VP_OUT_DIR").unwrap_or_else(|_| VERIF_DIR.to_string())
+}
+
 // ---------------------------------------------------------------------------------------------
 // hex newtype for byte strings in replay files
 
@@ -634,7 +640,7 @@ pub struct ReplayFile {
 }
 
 pub fn write_replay(property: &str, v: &Violation) -> PathBuf {
-    let dir = PathBuf::from(format!("{}/replays", VERIF_DIR));
+    let dir = PathBuf::from(format!("{}/replays", out_dir()));
     let _ = std::fs::create_dir_all(&dir);
     let body = ReplayFile {
         property: property.to_string(),
@@ -699,7 +705,7 @@ pub fn write_evidence(ctx: &Ctx, meta: EvidenceMeta, n_violations: usize) {
         "wall_s": ctx.started.elapsed().as_secs_f64(),
         "violations": n_violations,
     });
-    let dir = format!("{}/evidence", VERIF_DIR);
+    let dir = format!("{}/evidence", out_dir());
     let _ = std::fs::create_dir_all(&dir);
     let path = format!("{}/{}.json", dir, ctx.property);
     let tmp = format!("{}.tmp.{}", path, std::process::id());
